@@ -194,6 +194,7 @@ macro_rules! fam_uint {
                         chk!(cs, "MontyParams::precompute_inverter.invert", cls, &expm, mc(params.precompute_inverter().invert(&x)));
                         chk!(cs, "MontyParams::precompute_inverter.invert_vartime", cls, &expm, mc(params.precompute_inverter().invert_vartime(&x)));
                         if invm.is_some() {
+                            cs.group();
                             chk!(cs, "MontyForm x * inv(x) == one", cls, &Out::v(&from_big(&(BigUint::one() % m), $n)), Out::v(&w(&(x * Option::<MontyForm<$n>>::from(x.inv()).unwrap()).retrieve())));
                         }
                     }
